@@ -41,5 +41,16 @@ let dispatch = function
     let e = next_enc () in let ls = next_lines () in let s = next_pos () in let t = next_pos () in
     let ((rs, rt), (a1, a2)) = range_to_client_units e ls (s, t) in
     put_pos rs; put_pos rt; put_pos a1; put_pos a2
+  | "offset" ->  (* e text pos -> M, S defined?, S, guard F17, guard units (F31 / F16') *)
+    let e = next_enc () in let s = next_str () in let p = next_pos () in
+    put_n (offset_at_position e s p);
+    (match spec_offset e s p with Some o -> put_int 1; put_n o | None -> put_int 0; put_int 0);
+    put_bool (query_guard_widths e s p); put_bool (offset_guard_units e s p)
+  | "word" ->    (* e text pos -> guard F17, S defined?, M word, S word *)
+    let e = next_enc () in let s = next_str () in let p = next_pos () in
+    put_bool (query_guard_widths e s p);
+    (match spec_word e s p with
+     | Some w -> put_int 1; put_nstr (word_at_position e s p); put_nstr w
+     | None -> put_int 0; put_nstr (word_at_position e s p); put_int 0)
   | c -> failwith ("unknown command " ^ c)
 let () = main_loop dispatch
